@@ -60,8 +60,11 @@ theorem decoder_constants :
 
 /-- the remaining statements the model transcribes: next offset = offset + 1 (Batch and reader loop), the skip loop
 of ReadMessage compares with the conn offset strictly, `highWaterMark == offset` gives the empty reader, Close stores
-the batch offset into the conn -/
+the batch offset into the conn; the attributes bit that makes `readHeader` pass over a v2 batch as a control batch is bit 5
+(0x20, the record-batch format's `isControlBatch`; bit 4 = 0x10 is `isTransactional`: a committed data batch of a
+transactional producer is data — seeded/C02-m11 tested bit 4) -/
 theorem decoder_statements :
+    Gen.decoderFacts.controlBatchMask = 2 ^ 5 ∧
     Gen.decoderFacts.nextOffsetPlus = 1 ∧ Gen.decoderFacts.readerNextOffsetPlus = 1 ∧
     Gen.decoderFacts.skipBelow = "$r.conn != nil && $1 < $r.connOffset()" ∧
     Gen.decoderFacts.emptyWhenHwmEqOffset = true ∧ Gen.decoderFacts.closeStoresOffset = true := by decide
